@@ -529,6 +529,9 @@ impl<'c> G<'c> {
         let lits = ["a", "b", "c", "a-b"];
         let mut branches = vec![];
         let overlapping = s.chance(1, 6);
+        // now and then a second property is a discriminator candidate too (distinct literal per branch): which one the
+        // compiler dispatches on must not matter and must not vary between runs
+        let second_tag: Option<String> = if s.chance(1, 4) { ["type", "k", "a"].iter().find(|t| **t != tag).map(|t| t.to_string()) } else { None };
         for i in 0..n {
             let tag_ty = if s.chance(1, 5) {
                 // a branch tagged with a union of two literals
@@ -547,6 +550,9 @@ impl<'c> G<'c> {
                 ty: tag_ty,
                 optional: false,
             }];
+            if let Some(t2) = &second_tag {
+                props.push(Prop { key: t2.clone(), ty: D::StrLit(["c", "b", "a", "a-b"][i % 4].to_string()), optional: false });
+            }
             let extra = s.range(0, 2);
             // now and then a branch also carries an index signature (every named property, the tag included, is a
             // string, so the object type is well-formed): the discriminated fast path must not lose it
